@@ -431,7 +431,16 @@ class Gen:
         r = self.r
         fields = []
         cur = 0
-        for _ in range(r.randint(0, 5)):
+        # entries made only of fields whose constness comes from their TYPE (compiled block length 0; the generated
+        # entry needs the "empty entry" cursor constructor), half of them leaf entries
+        const_types = [ty for ty in pool if (lambda t: t['k'] == 'type' and t.get('presence') == 'constant')(self.find(types, ty))]
+        const_only = depth > 0 and const_types and self.maybe(0.15)
+        leaf_only = const_only and self.maybe(0.5)
+        if const_only:
+            for _ in range(r.randint(1, 3)):
+                fields.append(self.decorate({'name': self.name('f'), 'id': self.n, 'type': r.choice(const_types)}))
+            self.hit('group.const_only_entry' + ('_leaf' if leaf_only else ''))
+        for _ in range(0 if const_only else r.randint(0, 5)):
             if self.maybe(0.3):
                 ty = r.choice(PRIMS)
                 f = {'name': self.name('f'), 'id': self.n, 'type': ty}
@@ -460,7 +469,7 @@ class Gen:
         if self.maybe(0.3):
             lvl['blockLength'] = cur + r.choice([0, 1, 3, 8])
             self.hit('level.custom_blockLength')
-        if depth < self.max_depth:
+        if depth < self.max_depth and not leaf_only:
             for _ in range(r.choice([0, 0, 1, 1, 2, 3] if depth < 2 else [0, 1, 2])):
                 g = self.gen_level(types, pool, dims, datas, depth + 1)
                 g.update({'name': self.name('g'), 'id': self.n, 'dim': r.choice(dims)})
@@ -477,7 +486,7 @@ class Gen:
                 pos = lvl['groups'].index(g) + (0 if self.maybe(0.5) else 1)
                 lvl['groups'].insert(pos, clash)
                 self.hit('group.path_name_coincidence')
-        for _ in range(r.choice([0, 0, 1, 2, 3, 4])):
+        for _ in range(0 if leaf_only else r.choice([0, 0, 1, 2, 3, 4])):
             lvl['datas'].append(self.decorate({'name': self.name('d'), 'id': self.n, 'type': r.choice(datas)}))
             self.hit('data.depth%d' % depth)
         return lvl
